@@ -28,7 +28,9 @@ RULE = ("kernel level: the full tie grid (every end point, every value exactly o
         "subsets of the dims or on an extra dim, values and end points on the dyadic grid k/2 so that values sit exactly on end points, "
         "finite / infinite / per-dimension end points, rectangular and trapezoidal shapes, alpha and Huber parameters from a grid, all "
         "request spellings, NaN injected) plus a malformed stream; a near-tie stream off the grid (arbitrary binary64 values of magnitude 1e-9 .. 1e9 "
-        "and 0, forecast errors of relative size 1e-11 .. 1e-1 or absolute size 1e-14 .. 1e-8, exact ties) against the exact oracle; a case is distinct by the hash of (function, inputs, options) and "
+        "and 0, forecast errors of relative size 1e-11 .. 1e-1 or absolute size 1e-14 .. 1e-8, exact ties) against the exact oracle; integer storage dtypes (one or BOTH operands unsigned / int8) against the oracle on the values; +-inf "
+        "among forecasts / observations against the integral over theta on the extended reals (value or NaN where the closed formula is inf - inf, "
+        "never another number); a case is distinct by the hash of (function, inputs, options) and "
         "non-trivial when it yields a finite value or exercises an error path")
 ASSUMPTIONS = ["labelled inputs carry identical label sets along shared dimensions (storage order, dimension order and scalar / array end points vary freely)"]
 TRUSTED = ["R-level theorems (coq/proofs/C10_RInt*.v): Coq Reals + Coquelicot 3.x and their standard axioms, as listed per theorem"]
@@ -843,7 +845,8 @@ def int_dtype_props(ctx, rounds):
                 xv = [Fr(rng.randint(0, 255 if big else 24)) for _ in range(n)]
             if rng.random() < 0.4:
                 q = rng.randrange(n)
-                xv[q] = Fr(iv[q])                # exact hits
+                if np.iinfo(odt).min <= iv[q] <= np.iinfo(odt).max:
+                    xv[q] = Fr(iv[q])            # exact hits
             other_int = True
             ctx.count("int_dtype:both-narrow")
         I = xr.DataArray(np.array(iv, dtype=dt), dims=["x"])
